@@ -70,7 +70,17 @@ func (p *packetizer) Packetize(payload []byte, samples uint32) []*Packet {
 		return nil
 	}
 
-	payloads := p.Payloader.Payload(p.MTU-12, payload)
+	fragmentSize := p.MTU - 12
+	if id := p.extensionNumbers.AbsSendTime; id != 0 {
+		// leave room for the abs-send-time extension that is attached to the last packet:
+		// 4 bytes block header + element, rounded up to 32 bits
+		if id <= 14 {
+			fragmentSize -= 8
+		} else {
+			fragmentSize -= 12
+		}
+	}
+	payloads := p.Payloader.Payload(fragmentSize, payload)
 	packets := make([]*Packet, len(payloads))
 
 	for i, pp := range payloads {
